@@ -742,12 +742,29 @@ func genGroups(t *rapid.T, pf Profile, w *World) {
 				k = min
 			}
 			parent := ""
-			if chance(t, 5, "sgParent") {
+			// hierarchy above the pod sets: none / one parent / two sibling parents (the root then has only
+			// sub-group sets below it, no pod set of its own) / two sibling parents under a common top
+			parents := []string{""}
+			switch uniform(t, 8, "sgHierarchy") {
+			case 0, 1, 2:
 				parent = "all"
 				g.SubGroups = append(g.SubGroups, SubGroup{Name: "all"})
+				parents = []string{"all"}
+			case 3, 4:
+				g.SubGroups = append(g.SubGroups, SubGroup{Name: "ga"}, SubGroup{Name: "gb"})
+				parents = []string{"ga", "gb"}
+			case 5:
+				g.SubGroups = append(g.SubGroups, SubGroup{Name: "top"}, SubGroup{Name: "ga", Parent: "top"}, SubGroup{Name: "gb", Parent: "top"})
+				parents = []string{"ga", "gb"}
 			}
 			left := min
 			for s := 0; s < k; s++ {
+				if len(parents) == 2 {
+					parent = parents[1]
+					if s == 0 {
+						parent = parents[0]
+					}
+				}
 				m := 1
 				if s == k-1 {
 					m = left
@@ -909,6 +926,17 @@ func genGroups(t *rapid.T, pf Profile, w *World) {
 		}
 		if anyRunning {
 			g.LastStartMin = pickInt(t, "lastStart", 5, 30, 90, 240, 1000)
+		}
+		// a gang that runs with fewer pods than its minimum has been marked stale some time ago: the grace period
+		// (60 s by default) is over and the stale-gang eviction action may act in this history
+		active := 0
+		for _, p := range g.Pods {
+			if p.State == Running || p.State == Binding {
+				active++
+			}
+		}
+		if active > 0 && active < g.MinMember && chance(t, 6, "staleSince") {
+			g.StaleMin = pickInt(t, "staleMin", 2, 30, 600)
 		}
 		w.Groups = append(w.Groups, g)
 	}
